@@ -49,8 +49,8 @@ fn sym(j: &J, len: usize) -> u32 {
     let l = len as u64;
     let v: u64 = match j.as_str() {
         Some("len") => l,
-        Some("len-1") => l.saturating_sub(1),
-        Some("len+1") => l + 1,
+        Some(s) if s.starts_with("len-") => l.saturating_sub(s[4..].parse::<u64>().unwrap_or(0)),
+        Some(s) if s.starts_with("len+") => l + s[4..].parse::<u64>().unwrap_or(0),
         Some("2^31") => 1 << 31,
         Some("max") => u32::MAX as u64,
         Some("max-1") => u32::MAX as u64 - 1,
@@ -59,6 +59,32 @@ fn sym(j: &J, len: usize) -> u32 {
         None => n(j),
     };
     v as u32
+}
+
+/// file:line of the last panic (set by the panic hook of the child)
+static LAST_PANIC_AT: std::sync::Mutex<Option<String>> = std::sync::Mutex::new(None);
+
+fn record_panics() {
+    std::panic::set_hook(Box::new(|info| {
+        let at = info.location().map(|l| format!("{}:{}", l.file(), l.line())).unwrap_or_default();
+        // a panic that cannot unwind (e.g. an unsafe-precondition check) aborts the process: leave its text
+        // on stderr for the parent
+        let msg = if let Some(s) = info.payload().downcast_ref::<&str>() {
+            s.to_string()
+        } else if let Some(s) = info.payload().downcast_ref::<String>() {
+            s.clone()
+        } else {
+            String::new()
+        };
+        eprintln!("panic at {}: {}", at, msg.replace('\n', " ").chars().take(300).collect::<String>());
+        if let Ok(mut g) = LAST_PANIC_AT.lock() {
+            *g = Some(at);
+        }
+    }));
+}
+
+fn take_panic_at() -> Option<String> {
+    LAST_PANIC_AT.lock().ok().and_then(|mut g| g.take())
 }
 
 fn vm_hwm_kb() -> u64 {
@@ -833,7 +859,9 @@ fn do_history_case(case: &J, kind: &str) -> Obs {
 }
 
 fn child_main() {
-    quiet_panics();
+    if std::env::var("C01_DEFAULT_HOOK").is_err() {
+        record_panics();
+    }
     let stdin = std::io::stdin();
     let stdout = std::io::stdout();
     for line in stdin.lock().lines() {
@@ -851,7 +879,8 @@ fn child_main() {
             Err(e) => Obs { code: None, panic: Some(format!("outside the interpreter call: {}", panic_text(e))), class: "driver".into(), input_bytes: 0, info: json!({}) },
         };
         let after = vm_hwm_kb();
-        let msg = json!({"code": o.code, "panic": o.panic, "class": o.class, "input_bytes": o.input_bytes, "info": o.info,
+        let panic_at = if o.panic.is_some() { take_panic_at() } else { None };
+        let msg = json!({"code": o.code, "panic": o.panic, "panic_at": panic_at, "class": o.class, "input_bytes": o.input_bytes, "info": o.info,
                          "hwm_before_kb": before, "hwm_after_kb": after});
         let mut h = stdout.lock();
         let _ = writeln!(h, "{}", msg);
@@ -869,6 +898,8 @@ fn child_main() {
 struct Child {
     proc_: std::process::Child,
     rx: std::sync::mpsc::Receiver<String>,
+    /// last lines the child wrote to stderr (the runtime's message when it aborts)
+    err_tail: std::sync::Arc<std::sync::Mutex<Vec<String>>>,
 }
 
 fn spawn_child(mem_kb: u64) -> Child {
@@ -879,10 +910,24 @@ fn spawn_child(mem_kb: u64) -> Child {
         .arg(exe)
         .stdin(std::process::Stdio::piped())
         .stdout(std::process::Stdio::piped())
-        .stderr(std::process::Stdio::null())
+        .stderr(std::process::Stdio::piped())
         .spawn()
         .expect("spawn child");
     let out = p.stdout.take().expect("stdout");
+    let err = p.stderr.take().expect("stderr");
+    let err_tail = std::sync::Arc::new(std::sync::Mutex::new(Vec::<String>::new()));
+    let tail2 = err_tail.clone();
+    std::thread::spawn(move || {
+        let r = std::io::BufReader::new(err);
+        for l in r.lines() {
+            if let (Ok(l), Ok(mut g)) = (l, tail2.lock()) {
+                g.push(l);
+                if g.len() > 6 {
+                    g.remove(0);
+                }
+            }
+        }
+    });
     let (tx, rx) = std::sync::mpsc::channel();
     std::thread::spawn(move || {
         let r = std::io::BufReader::new(out);
@@ -897,7 +942,7 @@ fn spawn_child(mem_kb: u64) -> Child {
             }
         }
     });
-    Child { proc_: p, rx }
+    Child { proc_: p, rx, err_tail }
 }
 
 fn term(class: &str, input_bytes: u64, obs: &str, hwm_kb: u64, grew_kb: u64) -> String {
@@ -955,7 +1000,7 @@ fn parent_main() {
                     child = None;
                 }
                 json!({"coq": [term(&class, ib, &obs, after, grew)], "classes": [class],
-                       "info": [{"verdict": verdict, "panic": m["panic"], "code": m["code"], "hwm_kb": after, "grew_kb": grew, "input_bytes": ib, "detail": m["info"]}]})
+                       "info": [{"verdict": verdict, "panic": m["panic"], "panic_at": m["panic_at"], "code": m["code"], "hwm_kb": after, "grew_kb": grew, "input_bytes": ib, "detail": m["info"]}]})
             }
             Err(e) => {
                 let timed_out = matches!(e, std::sync::mpsc::RecvTimeoutError::Timeout);
@@ -963,6 +1008,18 @@ fn parent_main() {
                     let _ = ch.proc_.kill();
                 }
                 let status = ch.proc_.wait().ok();
+                std::thread::sleep(std::time::Duration::from_millis(20));
+                let tail: Vec<String> = ch.err_tail.lock().map(|g| g.clone()).unwrap_or_default();
+                let tail_txt = tail.join(" | ");
+                let death = if tail_txt.contains("overflowed its stack") {
+                    "stack-overflow"
+                } else if tail_txt.contains("memory allocation of") {
+                    "allocation-failure"
+                } else if tail_txt.contains("NonNull::new_unchecked requires that the pointer is non-null") {
+                    "null-box-precondition"
+                } else {
+                    "other"
+                };
                 child = None;
                 use std::os::unix::process::ExitStatusExt;
                 let sig = status.and_then(|s| s.signal()).unwrap_or(0);
@@ -970,7 +1027,8 @@ fn parent_main() {
                 let class = format!("{}.{}", st(&case["kind"]), if timed_out { "timeout" } else { "died" });
                 let obs = if timed_out { "CTimeout".to_string() } else { format!("(CDied {})", sig) };
                 json!({"coq": [term(&class, approx_bytes, &obs, 0, 0)], "classes": [class],
-                       "info": [{"verdict": if timed_out { "timeout" } else { "died" }, "signal": sig, "exit_code": code, "input_bytes": approx_bytes}]})
+                       "info": [{"verdict": if timed_out { "timeout" } else { "died" }, "signal": sig, "exit_code": code, "input_bytes": approx_bytes,
+                                 "death": death, "stderr_tail": tail_txt}]})
             }
         };
         println!("{}", out);
